@@ -99,9 +99,13 @@ class Responder(StreamWatcher):
         new = stream[index:]
         # Search, across lines if necessary
         matches = re.findall(pattern, new, re.S)
-        # Update seek index if we've matched
-        if matches:
-            setattr(self, index_attr, index + len(new))
+        # Update seek index if we've matched: move it just past the last
+        # match, so text following it is still scanned on the next submission.
+        last = None
+        for last in re.finditer(pattern, new, re.S):
+            pass
+        if last is not None:
+            setattr(self, index_attr, index + max(last.end(), 1))
         return matches
 
     def submit(self, stream: str) -> Generator[str, None, None]:
